@@ -55,8 +55,12 @@ def structural_oracle(fn, meta: dict, real_neutral, stats: Counter) -> list[str]
     import onnx
 
     problems: list[str] = []
-    fp = fn.to_function_proto()
     stats["structural_evaluations"] += 1
+    try:
+        fp = fn.to_function_proto()
+    except Exception as e:  # an accepted program whose proto cannot even be produced
+        return [f"to_function_proto() raises {type(e).__name__} on a program the decorator accepted: "
+                + " ".join(str(e).split())[:160]]
     try:
         onnx.checker.check_function(fp)
     except Exception as e:
